@@ -9,7 +9,7 @@ CLAIMED = {
   "structural induction over the run and determinacy of PEG (meta, DESIGN §12); assumed contracts of utf8.DecodeRune/unicode.*; grammar-literal well-formedness axioms (wf-*) describe what builder.writeExpr emits: the emission functions are under contract for the attribute lines the runtime relies on (literal value lower-cased iff case-insensitive, ignoreCase/inverted flags, names, labels, the Basic Latin table computed from the class's own members); left-recursive rules are outside D (C08)"),
  "C02": ("proof", "§7 C02",
   "read() is proved to keep (line, col, offset, rune, width) equal to a pure spec function of (input, offset) (SP); every savepoint ever restored is SP. Call-site obligations before each code-block call state what the block observes (action: matched ==> pos = start, text = matched bytes; predicates/state blocks: current position and empty text); labels: parseLabeledExpr binds label to value in the scope frame, pushV yields an empty frame, stacks are balanced, lower frames keep their identity.",
-  "user code blocks read their arguments from the top frame through generated callon* glue (template text, trusted); known findings F2a-c (predicate/state blocks see stale pos/text) are excused only while their witnesses reproduce"),
+  "user code blocks read their arguments from the top frame through generated callon* glue (template text, trusted); defects F2a-c (predicate and state blocks saw the stale pos/text of the last action) found by the call-site obligations before the three run calls were repaired by a fix: commit (e3d2de6)"),
  "C05": ("proof", "§7 C05",
   "cloneState/restoreState/Discard are verified against snapshot contracts (fresh map, same keys, values up to Cloner.Clone; linear restore; cleared before pooling). Every parse function proves: on failure the store equals the entry store (StEq), & ! and code predicates always, the current-store map is the entry one or fresh, snapshots held by callers and the global store are not written (store frame).",
   "Cloner.Clone returns an independent copy; user blocks touch only c.state/c.globalStore; sync.Pool hands back only maps that were Put (modelled as fresh-and-empty, justified by the Put precondition 'cleared' and linear use)"),
